@@ -46,6 +46,7 @@ struct BoardRun {
     quick: u64,
     thorough: u64,
     small: bool, // add the exhaustive 3-man slice in the thorough tier
+    trees: (u32, u32, usize, u32, u32, usize), // exhaustive shallow trees from the 960 starts: quick (depth_all, depth_some, some_per_shard), thorough (...)
     rule: &'static str,
     floors: Vec<Floor>,
 }
@@ -101,6 +102,13 @@ fn run_boards<M: BoardMonitor>(cfg: &Cfg, spec: BoardRun, make: impl Fn() -> M +
         if spec.small && cx.is_thorough() && !cx.miri {
             small_boards(cx, &mut mon);
         }
+        if !cx.miri {
+            let (qa, qs, qn, ta, ts, tn) = spec.trees;
+            let (a, sm, n) = if cx.is_thorough() { (ta, ts, tn) } else { (qa, qs, qn) };
+            if a > 0 || sm > 0 {
+                start_trees(cx, &mut mon, a, sm, n);
+            }
+        }
         extra(cx, &mut mon);
     })?;
     let mut stats = stats;
@@ -126,6 +134,7 @@ fn run_property(cfg: &Cfg) -> Result<Outcome, String> {
                 quick: 3_000_000,
                 thorough: 80_000_000,
                 small: true,
+                trees: (2, 3, 2, 3, 4, 1),
                 rule: "boards from all entry routes (960/DFRC starts, corpus, scatter, sound-random, pin/EP/castling/promotion/mating/max-batch lattices; builder and FEN) and random legal walks with null moves; per board the multiset of generated moves is compared with the reference model's legal moves; distinct_nontrivial = distinct positions (placement, side, rights, EP) in check, with pins, EP file, castling rights, promotions or no legal move",
                 floors: vec![
                     fl("class:single-check", 2000),
@@ -143,7 +152,22 @@ fn run_property(cfg: &Cfg) -> Result<Outcome, String> {
                 ],
             },
             || C01,
-            |_, _| {},
+            |cx, mon| {
+                // thorough: every one of the 960 x 960 double Chess960 start positions
+                if cx.is_thorough() && !cx.miri {
+                    for w in cx.mine(960) {
+                        for bn in 0..960u32 {
+                            if let Ok(b) = guard(|| cozy_chess::Board::double_chess960_startpos(w as u32, bn)) {
+                                let m = refmodel::RPos::observe(&b);
+                                let hist = Hist { route: "dfrc", root: refmodel::fen::write_fen(&m, true), moves: vec![] };
+                                let ev = Ev { kind: EvKind::Root, prev: None, mv: None, hist: &hist, source: "dfrc-all-pairs" };
+                                mon.on_board(cx, &b, &m, &ev);
+                                cx.count("dfrc-all-pairs");
+                            }
+                        }
+                    }
+                }
+            },
         ),
         "C02" => run_boards(
             cfg,
@@ -152,6 +176,7 @@ fn run_property(cfg: &Cfg) -> Result<Outcome, String> {
                 quick: 900_000,
                 thorough: 25_000_000,
                 small: false,
+                trees: (1, 2, 4, 2, 3, 2),
                 rule: "for every board of the stream and every legal move: play_unchecked (and play / try_play on a third) on a clone, observed successor compared field by field with the rule-book successor of the reference model; distinct_nontrivial = distinct positions from which a castling, EP, promotion, right-losing or clock-saturating move was played, or with EP file / in check",
                 floors: vec![
                     fl("castle-played:short", 500),
@@ -181,6 +206,7 @@ fn run_property(cfg: &Cfg) -> Result<Outcome, String> {
                 quick: 2_400_000,
                 thorough: 60_000_000,
                 small: true,
+                trees: (2, 3, 2, 3, 4, 1),
                 rule: "after every play_unchecked / null_move of random histories (and at every root): checkers() and pinned() against the definition computed by the reference model, Board == board rebuilt through builder and through Shredder-FEN, and a cross-route table (position+clocks -> checkers,pins) merged over shards; distinct_nontrivial = distinct positions with a non-empty pinned or checker set",
                 floors: vec![
                     fl("observed-after-play", 100_000),
@@ -203,6 +229,7 @@ fn run_property(cfg: &Cfg) -> Result<Outcome, String> {
                 quick: 100_000,
                 thorough: 3_000_000,
                 small: false,
+                trees: (1, 0, 0, 2, 0, 0),
                 rule: "per board all 64*64*7 = 28672 move values: is_legal(mv) == membership in the library's own generated set (never panics); distinct_nontrivial = distinct positions in a special class (check, pins, EP, castling rights, promotions, no move)",
                 floors: vec![fl("class:single-check", 300), fl("class:double-check", 20), fl("class:castling-legal", 200), fl("class:ep-capture-legal", 50), fl("class:promotion-available", 100), fl("class:own-piece-pinned", 300)],
             },
@@ -216,6 +243,7 @@ fn run_property(cfg: &Cfg) -> Result<Outcome, String> {
                 quick: 3_000_000,
                 thorough: 80_000_000,
                 small: true,
+                trees: (1, 2, 2, 3, 0, 0),
                 rule: "status() against the reference model (no legal move & in check => Won; no legal move & not in check, or move & clock>=100 => Drawn) on the general stream enriched with mating nets and clocks forced to 96..100; distinct_nontrivial = distinct positions (with clocks) whose status class is not plain Ongoing",
                 floors: vec![fl("status-won", 500), fl("status-stalemate", 100), fl("status-fifty", 500), fl("status-ongoing-99", 200), fl("status-won-at-100", 5)],
             },
@@ -229,6 +257,7 @@ fn run_property(cfg: &Cfg) -> Result<Outcome, String> {
                 quick: 3_000_000,
                 thorough: 80_000_000,
                 small: true,
+                trees: (2, 3, 1, 3, 4, 1),
                 rule: "null_move() on every board of random histories (which themselves interleave null moves): refused iff in check (model); result compared field by field with the model's null successor, checkers/pins with the definition, and == boards rebuilt through builder and text; distinct_nontrivial = distinct positions where the null move is refused, clears an EP file, saturates a clock, leaves pins, or follows another null move",
                 floors: vec![
                     fl("null-move-accepted", 100_000),
@@ -253,6 +282,7 @@ fn run_property(cfg: &Cfg) -> Result<Outcome, String> {
                     quick: 40_000,
                     thorough: 1_200_000,
                     small: false,
+                    trees: (0, 1, 4, 1, 2, 2),
                     rule: "per board all 28672 move values through try_play on a scratch clone: Ok iff legal, Ok result == play_unchecked result, Err leaves the clone == original (Eq, text, hash); play(): never panics on legal moves, panics on a sample of illegal ones (near misses first) leaving the board unchanged; distinct_nontrivial = distinct positions in a special class",
                     floors: vec![fl("try_play_ok", 50_000), fl("play-panicked-on-illegal", 100_000), fl("play-illegal-castling-attempted", 200)],
                 },
@@ -267,6 +297,7 @@ fn run_property(cfg: &Cfg) -> Result<Outcome, String> {
                 quick: 800_000,
                 thorough: 20_000_000,
                 small: false,
+                trees: (1, 2, 2, 2, 3, 2),
                 rule: "per board ~15 masks (empty, full, own pieces, all-but-king, only/all-but EP capturers, only/all-but pinned, single squares, random dense/sparse and complements): generate_moves_for(mask) == {legal m : m.from in mask} (model), batches non-empty and <= 18, and for every k an aborting listener is called exactly k+1 times and the call returns true; distinct_nontrivial = distinct positions where a mask cut an EP capturer or a pinned piece, or in check",
                 floors: vec![fl("abort_points_exercised", 500_000), fl("mask-cuts-ep-capturers", 2000), fl("mask-cuts-pinned-piece", 2000), fl("max_batches_in_one_call", 17)],
             },
@@ -280,6 +311,7 @@ fn run_property(cfg: &Cfg) -> Result<Outcome, String> {
                 quick: 1_800_000,
                 thorough: 45_000_000,
                 small: false,
+                trees: (2, 3, 2, 3, 0, 0),
                 rule: "soundness: every board handed out by any route (text x3 parsers, builder, start constructors, play, null move) is checked clause by clause by the reference model; single-defect candidates (one clause broken in an otherwise sound position) and scatter are submitted through from_fen(plain/shredder), FromStr and the builder; acceptance: every position along legal walks from the 960 / DFRC starts is re-entered through all text routes and the builder and must be accepted and equal; start constructors checked against the Chess960 definition; distinct_nontrivial = distinct re-entered positions + distinct defect candidates + DFRC pairs",
                 floors: vec![
                     fl("acceptance:positions-re-entered", 50_000),
@@ -311,6 +343,7 @@ fn run_property(cfg: &Cfg) -> Result<Outcome, String> {
                 quick: 1_500_000,
                 thorough: 40_000_000,
                 small: false,
+                trees: (2, 0, 0, 3, 0, 0),
                 rule: "every accepted board of the stream: Shredder text == canonical record of the observed position (character for character), from_fen/FromStr of it == board; same for plain FEN when all rights are on a/h; boards equal <=> texts equal (ring of recent boards, fresh rebuild, cross-shard table text -> std::hash of Board); converse: canonical records written by the model for sound random positions parse and re-format to the identical string; distinct_nontrivial = distinct texts with EP file, inner-file or one-sided rights, or after a null move",
                 floors: vec![
                     fl("plain-fen-expressible", 50_000),
@@ -334,6 +367,7 @@ fn run_property(cfg: &Cfg) -> Result<Outcome, String> {
                 quick: 900_000,
                 thorough: 25_000_000,
                 small: false,
+                trees: (1, 0, 0, 2, 0, 0),
                 rule: "random builder states (scatter, lattices, sound positions with 0-2 aspect edits): if a Shredder record expresses the state, build().is_ok() == from_fen(record).is_ok() and both boards are equal and carry the state's fields; wrong-side rights must be rejected; single-aspect defects must yield the matching BoardBuilderError; every accepted board of the stream: from_board(b).build() == b; distinct_nontrivial = distinct accepted records + round-tripped boards",
                 floors: vec![
                     fl("agree-accept", 20_000),
@@ -366,6 +400,7 @@ fn run_property(cfg: &Cfg) -> Result<Outcome, String> {
                 quick: 1_500_000,
                 thorough: 40_000_000,
                 small: false,
+                trees: (2, 3, 2, 3, 4, 1),
                 rule: "after every call of random histories: hash() == hash of the position rebuilt through builder and through text; hash_without_ep() == hash of the position with the EP file cleared; clock changes (setters, text) leave the hash unchanged; transposition probes (two moves + two replies in different orders reaching the same model position) and a cross-shard table position -> hash must be single-valued; distinct_nontrivial = distinct positions (placement, side, rights, EP)",
                 floors: vec![
                     fl("hash-after-play", 100_000),
@@ -390,6 +425,7 @@ fn run_property(cfg: &Cfg) -> Result<Outcome, String> {
                 quick: 900_000,
                 thorough: 25_000_000,
                 small: false,
+                trees: (1, 2, 1, 2, 3, 1),
                 rule: "around every board a group (itself, other clocks, EP cleared / a backed EP file added, one right less, other side to move, one piece changed, previous board of the stream): same_position on all ordered pairs against FIDE identity (placement, side, rights, effective EP = EP file iff the model finds a legal EP capture); reflexive, symmetric, transitive on the observed relation; distinct_nontrivial = distinct positions around which a group of > 2 boards was built",
                 floors: vec![
                     fl("ep-file-with-legal-capture", 5000),
@@ -410,6 +446,7 @@ fn run_property(cfg: &Cfg) -> Result<Outcome, String> {
                     quick: 600_000,
                     thorough: 15_000_000,
                     small: false,
+                    trees: (1, 2, 2, 2, 3, 1),
                     rule: "per board and every legal move: display_san_move == canonical SAN written by the reference model, parse_san_move inverts it; on boards with orthodox rights display_uci_move == standard UCI and parse_uci_move inverts it; per board mutated SAN texts and random strings through parse_san_move: no panic, result legal, text within the SAN grammar, no written component contradicted, not accepted when two legal moves fit; distinct_nontrivial = distinct positions with disambiguation, castling, EP, promotion or mate in the SAN of some move",
                     floors: vec![
                         fl("writer:file-disambiguation", 2000),
